@@ -63,7 +63,7 @@ RULE = (
     "a find after every mutation plus a full audit at the end. distinct = distinct histories, non-trivial = >=2 adds "
     "and (a remove or a find with a non-empty must-set). Only live objects are removed, only new objects are added "
     "(a double add and the removal of an absent object are undocumented and not generated). Re-adding a removed "
-    "object occurs only in the tagged sub-family 'readd' (it must be iterated once, at its latest insertion)."
+    "object (through add() or as an item of extend(), alone or mixed with new objects) occurs only in the tagged sub-family 'readd' (it must be iterated once, at its latest insertion)."
 )
 LEVEL_TEXT = (
     "Bounded exploration: the laws are evaluated exactly on the generated tuples and the index is compared with a "
@@ -99,7 +99,8 @@ def minimums(tier: str) -> Dict[str, int]:
             "exh_pairs": 260000, "exh_must": 120000, "exh_dontcare": 15000, "seen:exh_origins": len(EXH_ORIGINS),
             "hist_cases": 2000, "finds_checked": 60000, "find_must_objects": 120000, "find_dontcare_objects": 50000,
             "removes": 8000, "iter_checked": 5000, "len_checked": 30000, "contains_checked": 50000,
-            "readd_histories": 250, "readds": 500,
+            "readd_histories": 250, "readds": 700, "readds_via_extend": 400, "extends_with_removed": 250,
+            "extends_mixing_new_and_removed": 120, "extend_size_0": 400, "extend_size_1": 500, "extend_size_2": 1500,
             "seen:gridsizes": 3, "seen:origin_kinds": len(ORIGIN_KINDS), "seen:interval_styles": len(INTERVAL_STYLES),
             "seen:query_styles": 7, "seen:object_kinds": 2,
         }
@@ -110,7 +111,8 @@ def minimums(tier: str) -> Dict[str, int]:
         "exh_pairs": 800000, "exh_must": 400000, "exh_dontcare": 25000, "seen:exh_origins": len(EXH_ORIGINS),
         "hist_cases": 80000, "finds_checked": 2500000, "find_must_objects": 5000000, "find_dontcare_objects": 2000000,
         "removes": 400000, "iter_checked": 200000, "len_checked": 1500000, "contains_checked": 2500000,
-        "readd_histories": 8000, "readds": 16000,
+        "readd_histories": 8000, "readds": 20000, "readds_via_extend": 12000, "extends_with_removed": 8000,
+        "extends_mixing_new_and_removed": 4000, "extend_size_0": 15000, "extend_size_1": 20000, "extend_size_2": 60000,
         "seen:gridsizes": 3, "seen:origin_kinds": len(ORIGIN_KINDS), "seen:interval_styles": len(INTERVAL_STYLES),
         "seen:query_styles": 7, "seen:object_kinds": 2,
     }
@@ -691,7 +693,20 @@ def run_history(case: Dict[str, Any], stats: Optional[Dict[str, int]] = None) ->
             cnt("adds")
             r = chk_len(i) or chk_in(i, op[1], o) or chk_find(i, around(boxes[op[1]]))
         elif kind == "extend":
-            news = [new_obj(v, bb) for v, bb in op[1]]
+            # an item is a new object, or (tagged family only) one that was removed earlier; a live
+            # object is never passed: add() appends a second sequence entry for it (undocumented)
+            news = []
+            back = []
+            for v, bb in op[1]:
+                if v in objs:
+                    if v not in removed or v in live or v in back:
+                        raise Invalid("extend with an object that is not removed")
+                    if tuple(bb) != boxes[v]:
+                        raise Invalid("object changed its box")
+                    back.append(v)
+                    news.append(objs[v])
+                else:
+                    news.append(new_obj(v, bb))
             how = op[2] if len(op) > 2 else "list"
             arg: Any = news if how == "list" else (tuple(news) if how == "tuple" else (x for x in news))
             try:
@@ -702,10 +717,21 @@ def run_history(case: Dict[str, Any], stats: Optional[Dict[str, int]] = None) ->
                 order.append(v)
                 live.add(v)
             cnt("extends")
-            cnt("adds", len(news))
+            cnt("extend_size_%d" % min(len(news), 2))
+            cnt("adds", len(news) - len(back))
             r = chk_len(i)
             if r is None and news:
                 r = chk_find(i, around(boxes[op[1][-1][0]]))
+            if back:
+                readded.update(back)
+                cnt("readds", len(back))
+                cnt("readds_via_extend", len(back))
+                cnt("extends_with_removed")
+                if len(back) < len(news):
+                    cnt("extends_mixing_new_and_removed")
+                for v in back:
+                    r = r or chk_in(i, v, objs[v]) or chk_find(i, around(boxes[v]))
+                r = r or chk_iter(i)
         elif kind == "remove":
             v = op[1]
             if v not in live:
@@ -955,9 +981,25 @@ def gen_history(rng: random.Random, readd: bool, tier: str) -> Tuple[Dict[str, A
             ops.append(["remove", v])
             gone.append(v)
         elif r < 0.56 and readd and gone:
-            v = gone.pop(rng.randrange(len(gone)))
-            ops.append(["readd", v])
-            live.append(v)
+            if rng.random() < 0.5:
+                v = gone.pop(rng.randrange(len(gone)))
+                ops.append(["readd", v])
+                live.append(v)
+            else:   # the same re-insertion through extend(): 1..4 items, removed ones mixed with new ones
+                k = rng.randint(1, 4)
+                nback = rng.randint(1, min(k, len(gone)))
+                slots = set(rng.sample(range(k), nback))
+                items = []
+                for j in range(k):
+                    if j in slots:
+                        v = gone.pop(rng.randrange(len(gone)))
+                    else:
+                        v = nxt
+                        boxes[v] = newbox()
+                        nxt += 1
+                    items.append([v, boxes[v]])
+                    live.append(v)
+                ops.append(["extend", items, rng.choice(("list", "tuple", "generator"))])
         elif r < 0.86:
             known = [boxes[v] for v in live] + ([boxes[v] for v in gone[-3:]] if gone else [])
             qs, q = gen_query(rng, bounds, g, known, used)
@@ -1012,7 +1054,8 @@ def _hist_nontrivial(st: Dict[str, int]) -> bool:
 _COUNTED = (
     "adds", "extends", "removes", "readds", "finds_checked", "find_must_objects", "find_dontcare_objects",
     "finds_must_nonempty", "finds_empty", "dontcare_returned", "dontcare_not_returned", "iter_checked", "len_checked",
-    "contains_checked", "readd_iterated_at_latest_position",
+    "contains_checked", "readd_iterated_at_latest_position", "readds_via_extend", "extends_with_removed",
+    "extends_mixing_new_and_removed", "extend_size_0", "extend_size_1", "extend_size_2",
 )
 
 
